@@ -44,7 +44,9 @@ theorem index_spec (s : Stk) (hs : SmallLen s.xs.length) (i : Int) (hi : InInt i
   rw [inInt_iff] at hi
   unfold index
   -- the five regenerated guards, by what they mean (never by their shape)
-  simp only [hu, GenSem.index_nonempty, GenSem.index_isneg, GenSem.index_negok, GenSem.index_isover,
+  have hne : ∀ (a : Int) (b c : Bool), Gen.index_nonempty { ulen := a, i := i, L := a, negidx := b, fwdidx := c } = decide (0 < a) :=
+    fun a b c => GenSem.index_nonempty _ rfl
+  simp only [hu, hne, GenSem.index_isneg, GenSem.index_negok, GenSem.index_isover,
     GenSem.index_fwdok, hL, decide_eq_true_eq]
   unfold pos
   generalize hn : s.xs.length = n at *
